@@ -5,6 +5,10 @@ Python string (cat.py:500-507 recurses forever on strings).
 
 Families
   tensor  : tensor.Diagram of tensor.Box (list / nested list / tuple data), Swap, Spider, daggers
+  containers : the same entries handed to a box in every container type (`array_container`:
+            tuples, nested mixes of lists and tuples, numpy object arrays flat / shaped / inside
+            lists and tuples, 0-d arrays, a bare expression) and nested data that is not an array
+            (`wild_container`: sets, frozensets, dicts of lists / tuples / sets / arrays, ...)
   pure    : Circuit over Ket/Bra/H/X/CX/SWAP, Rx/Ry/Rz/CRz/CRx/CU1, scalar, sqrt
   mixed   : the same plus Measure, Discard, mixed scalars, ClassicalGate (also daggered), Bits, Copy
   zx      : zx.Diagram over Z/X spiders, Had, SWAP, zx.scalar   (evaluated by `zx_eval`, the
@@ -102,7 +106,7 @@ def data_symbols(data):
         return set().union(*[data_symbols(v) for v in data.values()]) if data else set()
     if isinstance(data, np.ndarray):
         return set().union(*[data_symbols(v) for v in data.flatten().tolist()]) if data.size else set()
-    if isinstance(data, (list, tuple, set)):
+    if isinstance(data, (list, tuple, set, frozenset)):
         return set().union(*[data_symbols(v) for v in data]) if data else set()
     return set()
 
@@ -123,6 +127,9 @@ def flat_data(data):
         return [x for v in data.values() for x in flat_data(v)]
     if isinstance(data, (list, tuple)):
         return [x for v in data for x in flat_data(v)]
+    if isinstance(data, (set, frozenset)):
+        # unordered: a canonical order (by printed form) so that runs are reproducible
+        return [x for v in sorted(data, key=str) for x in flat_data(v)]
     return [data]
 
 
@@ -131,6 +138,295 @@ def is_number(v):
         return True
     v = sympy.sympify(v)
     return bool(v.is_number) and not v.free_symbols
+
+
+# --------------------------------------------------------------------------- containers of box data
+
+def _prod(xs):
+    out = 1
+    for x in xs:
+        out *= int(x)
+    return out
+
+
+# ways of handing the SAME entries to a box whose data is read as an array (tensor.Box,
+# ClassicalGate): np.array(data).reshape(...) accepts every rectangular nesting
+ARRAY_KINDS = ["list", "tuple", "nested_list", "nested_tuple", "tuple_in_list", "list_in_tuple",
+               "deep_mixed", "ndarray_flat", "ndarray_shaped", "list_of_ndarrays", "tuple_of_ndarrays"]
+# only for one entry
+SINGLE_KINDS = ["singleton_tuple", "bare", "zero_d"]
+
+
+def array_container(rng, flat, dims, kind):
+    """The entries `flat` (row-major, axes `dims`) arranged in a container of the given kind."""
+    n = len(flat)
+    dims = [int(k) for k in dims] or [1]
+    k = rng.randint(1, max(1, len(dims) - 1))
+    rows = _prod(dims[:k]) if len(dims) >= 2 else 1
+    w = n // rows
+    chunks = [flat[i * w:(i + 1) * w] for i in range(rows)]
+    if kind == "list":
+        return list(flat)
+    if kind == "tuple":
+        return tuple(flat)
+    if kind == "nested_list":
+        return [list(c) for c in chunks]
+    if kind == "nested_tuple":
+        return tuple(tuple(c) for c in chunks)
+    if kind == "tuple_in_list":
+        return [tuple(c) for c in chunks]
+    if kind == "list_in_tuple":
+        return tuple(list(c) for c in chunks)
+    if kind == "deep_mixed":
+        def nest(es, ds):
+            ctor = rng.choice([list, tuple])
+            if len(ds) <= 1:
+                return ctor(es)
+            step = len(es) // ds[0]
+            return ctor([nest(es[i * step:(i + 1) * step], ds[1:]) for i in range(ds[0])])
+        return nest(list(flat), dims)
+    if kind == "ndarray_flat":
+        return np.array(list(flat), dtype=object)
+    if kind == "ndarray_shaped":
+        return np.array(list(flat), dtype=object).reshape(dims)
+    if kind == "list_of_ndarrays":
+        return [np.array(list(c), dtype=object) for c in chunks]
+    if kind == "tuple_of_ndarrays":
+        return tuple(np.array(list(c), dtype=object) for c in chunks)
+    if kind == "singleton_tuple":
+        return (flat[0], )
+    if kind == "bare":
+        return flat[0]
+    if kind == "zero_d":
+        return np.array(flat[0], dtype=object)
+    raise ValueError(kind)
+
+
+# containers that are NOT arrays (no evaluation): any box class keeps them as `data`
+WILD_KINDS = ["set", "frozenset", "dict", "dict_of_lists", "dict_of_tuples", "dict_of_sets", "dict_nested",
+              "list_of_dicts", "tuple_of_sets", "set_of_tuples", "list_of_sets", "dict_of_ndarrays", "wild"]
+
+
+def wild_container(rng, leaf, kind, depth=3):
+    """Nested data of the given kind with entries from `leaf()`.  Dict keys are ints or strings
+    (keys are not data); members of sets are entries, tuples or frozensets of entries."""
+    def leaves(lo=1, hi=3):
+        return [leaf() for _ in range(rng.randint(lo, hi))]
+
+    def keys(n):
+        pool = rng.choice([["k0", "k1", "k2", "k3"], [0, 1, 2, 3], ["w", 7, "b", 11]])
+        return pool[:n]
+
+    def hashable(d):
+        k = rng.random()
+        if d <= 0 or k < 0.5:
+            return leaf()
+        if k < 0.8:
+            return tuple(hashable(d - 1) for _ in range(rng.randint(1, 2)))
+        return frozenset(hashable(d - 1) for _ in range(rng.randint(1, 2)))
+
+    def wild(d):
+        k = rng.random()
+        if d <= 0 or k < 0.25:
+            return leaf()
+        n = rng.randint(1, 3)
+        if k < 0.40:
+            return [wild(d - 1) for _ in range(n)]
+        if k < 0.55:
+            return tuple(wild(d - 1) for _ in range(n))
+        if k < 0.65:
+            return set(hashable(d - 1) for _ in range(n))
+        if k < 0.72:
+            return frozenset(hashable(d - 1) for _ in range(n))
+        if k < 0.92:
+            return dict(zip(keys(n), [wild(d - 1) for _ in range(n)]))
+        return np.array(leaves(1, 3), dtype=object)
+    if kind == "set":
+        return set(leaves(1, 4))
+    if kind == "frozenset":
+        return frozenset(leaves(1, 4))
+    if kind == "dict":
+        vs = leaves(1, 4)
+        return dict(zip(keys(len(vs)), vs))
+    if kind == "dict_of_lists":
+        return {k: leaves() for k in keys(rng.randint(1, 3))}
+    if kind == "dict_of_tuples":
+        return {k: tuple(leaves()) for k in keys(rng.randint(1, 3))}
+    if kind == "dict_of_sets":
+        return {k: set(leaves()) for k in keys(rng.randint(1, 3))}
+    if kind == "dict_nested":
+        return {k: {kk: rng.choice([leaf, leaves, lambda: tuple(leaves())])() for kk in keys(rng.randint(1, 2))}
+                for k in keys(rng.randint(1, 2))}
+    if kind == "list_of_dicts":
+        return [dict(zip(keys(2), leaves(2, 2))) for _ in range(rng.randint(1, 2))]
+    if kind == "tuple_of_sets":
+        return tuple(set(leaves()) for _ in range(rng.randint(1, 2)))
+    if kind == "list_of_sets":
+        return [frozenset(leaves()) if rng.random() < 0.5 else set(leaves()) for _ in range(rng.randint(1, 2))]
+    if kind == "set_of_tuples":
+        return set(tuple(leaves(1, 2)) for _ in range(rng.randint(1, 3)))
+    if kind == "dict_of_ndarrays":
+        return {k: np.array(leaves(), dtype=object) for k in keys(rng.randint(1, 2))}
+    if kind == "wild":
+        return rng.choice([lambda: [wild(depth - 1) for _ in range(rng.randint(1, 3))],
+                           lambda: tuple(wild(depth - 1) for _ in range(rng.randint(1, 3))),
+                           lambda: dict(zip(keys(3), [wild(depth - 1) for _ in range(rng.randint(1, 3))]))])()
+    raise ValueError(kind)
+
+
+def canon_repr(data):
+    """repr of nested data that does not depend on the iteration order of sets."""
+    if isinstance(data, dict):
+        return "{%s}" % ", ".join("%r: %s" % (k, canon_repr(v)) for k, v in data.items())
+    if isinstance(data, np.ndarray):
+        return "array(%s)" % canon_repr(data.tolist())
+    if isinstance(data, list):
+        return "[%s]" % ", ".join(canon_repr(v) for v in data)
+    if isinstance(data, tuple):
+        return "(%s)" % "".join(canon_repr(v) + ", " for v in data)
+    if isinstance(data, (set, frozenset)):
+        return "%s{%s}" % ("frozen" if isinstance(data, frozenset) else "", ", ".join(sorted(canon_repr(v) for v in data)))
+    return str(data)
+
+
+def data_symbols_outside_zero_d(data):
+    """`data_symbols` of the data with its 0-d arrays left out."""
+    if isinstance(data, np.ndarray) and data.shape == ():
+        return set()
+    if isinstance(data, dict):
+        return set().union(*[data_symbols_outside_zero_d(v) for v in data.values()]) if data else set()
+    if isinstance(data, (list, tuple, set, frozenset)):
+        return set().union(*[data_symbols_outside_zero_d(v) for v in data]) if data else set()
+    return data_symbols(data)
+
+
+def container_types(data):
+    """Names of the container types occurring in nested data (for the input distribution and to
+    tell which cases sympy.lambdify is able to print)."""
+    out = set()
+    if isinstance(data, dict):
+        out.add("dict")
+        for v in data.values():
+            out |= container_types(v)
+    elif isinstance(data, np.ndarray):
+        out.add("ndarray0" if data.shape == () else "ndarray")
+    elif isinstance(data, (list, tuple, set, frozenset)):
+        out.add(type(data).__name__)
+        for v in data:
+            out |= container_types(v)
+    return out
+
+
+def has_str_keys(data):
+    """A dict with a string key somewhere in the data (sympy.lambdify prints keys unquoted: the
+    generated code reads them as NAMES, e.g. 'k0' becomes numpy's Bessel function)."""
+    if isinstance(data, dict):
+        return any(isinstance(k, str) for k in data) or any(has_str_keys(v) for v in data.values())
+    if isinstance(data, (list, tuple, set, frozenset)):
+        return any(has_str_keys(v) for v in data)
+    return False
+
+
+def has_nested_ndarray(data, top=True):
+    """An ndarray strictly inside another container."""
+    if isinstance(data, np.ndarray):
+        return not top
+    if isinstance(data, dict):
+        return any(has_nested_ndarray(v, False) for v in data.values())
+    if isinstance(data, (list, tuple, set, frozenset)):
+        return any(has_nested_ndarray(v, False) for v in data)
+    return False
+
+
+def zero_d_symbols(data):
+    """Symbols that occur in 0-d arrays of the data."""
+    if isinstance(data, np.ndarray):
+        return data_symbols(data) if data.shape == () else set()
+    if isinstance(data, dict):
+        return set().union(*[zero_d_symbols(v) for v in data.values()]) if data else set()
+    if isinstance(data, (list, tuple, set, frozenset)):
+        return set().union(*[zero_d_symbols(v) for v in data]) if data else set()
+    return set()
+
+
+def ref_rmap(func, data):
+    """The property's reading of an operation on the parameters of a box: the ENTRIES are mapped,
+    every container stays what it is (written here independently of discopy.cat.rmap)."""
+    if isinstance(data, dict):
+        return {k: ref_rmap(func, v) for k, v in data.items()}
+    if isinstance(data, np.ndarray):
+        out = np.empty(data.shape, dtype=object)
+        if data.shape == ():
+            out[()] = func(data.item())
+        else:
+            for idx in np.ndindex(*data.shape):
+                out[idx] = func(data[idx])
+        return out
+    if isinstance(data, list):
+        return [ref_rmap(func, v) for v in data]
+    if isinstance(data, tuple):
+        return tuple(ref_rmap(func, v) for v in data)
+    if isinstance(data, (set, frozenset)):
+        return type(data)(ref_rmap(func, v) for v in data)
+    return func(data)
+
+
+def nested_same(got, want, point, sequences_alike=True):
+    """Nested data equal as VALUES: same nesting (list / tuple / ndarray are all 'a sequence' when
+    `sequences_alike`: lambdify returns lists for arrays), same dict keys, sets compared as sets,
+    entries numerically equal at `point`.  Returns None or a text saying where they differ."""
+    def seq(x):
+        if isinstance(x, np.ndarray):
+            return x.tolist() if x.shape != () else None
+        if isinstance(x, (list, tuple)):
+            return list(x)
+        if type(x).__name__ == "Tuple":           # sympy.Tuple, what sympify makes of a tuple
+            return list(x)
+        return None
+
+    def leaf_same(x, y):
+        if isinstance(x, np.ndarray) and x.shape == ():
+            x = x.item()
+        if isinstance(y, np.ndarray) and y.shape == ():
+            y = y.item()
+        try:
+            return close([numeval(x, point)], [numeval(y, point)])
+        except Exception:
+            return False
+
+    def walk(x, y, path):
+        if isinstance(y, dict):
+            if not isinstance(x, dict) or sorted(map(repr, x)) != sorted(map(repr, y)):
+                return "%s: %r is not a dict with the keys of %r" % (path, x, y)
+            for k in y:
+                bad = walk(x[k], y[k], "%s[%r]" % (path, k))
+                if bad:
+                    return bad
+            return None
+        if isinstance(y, (set, frozenset)):
+            if not isinstance(x, (set, frozenset)):
+                return "%s: %r is not a set" % (path, x)
+            for a in y:
+                if not any(walk(b, a, path) is None for b in x):
+                    return "%s: %r has no member equal to %r" % (path, x, a)
+            for b in x:
+                if not any(walk(b, a, path) is None for a in y):
+                    return "%s: member %r is not in %r" % (path, b, y)
+            return None
+        sy = seq(y)
+        if sy is not None:
+            sx = seq(x)
+            if sx is None or len(sx) != len(sy) or (not sequences_alike and type(x) is not type(y)):
+                return "%s: %r is not a sequence like %r" % (path, x, y)
+            for i, (a, b) in enumerate(zip(sx, sy)):
+                bad = walk(a, b, "%s[%d]" % (path, i))
+                if bad:
+                    return bad
+            return None
+        if seq(x) is not None or isinstance(x, (dict, set, frozenset)):
+            return "%s: %r where the entry %r is expected" % (path, x, y)
+        return None if leaf_same(x, y) else "%s: %r != %r" % (path, x, y)
+    return walk(got, want, "data")
 
 
 # --------------------------------------------------------------------------- numeric comparison
@@ -202,7 +498,7 @@ def box_attrs(b):
 
 
 def diagram_shape(d):
-    return dict(dom=str(d.dom), cod=str(d.cod), offsets=[int(o) for o in d.offsets],
+    return dict(dom=str(d.dom), cod=str(d.cod), offsets=[int(o) for o in getattr(d, "offsets", [])],
                 boxes=[box_attrs(b) for b in d.boxes])
 
 
@@ -294,6 +590,45 @@ def alike_variants(rng, k, make, mode=None):
         else:
             out.append(make(random.Random(s), random.Random(ds), Tail(own, int(mode.split(":")[1]))))
     return out, mode
+
+
+# --------------------------------------------------------------------------- terms of formal sums
+
+# which term stands at which place of the sum: 0 and 1 are different diagrams of the same type,
+# 2 is EQUAL to 0 but a distinct object (built again from the same seeds)
+SUM_PATTERNS = [[0, 0], [0, 2], [0, 1, 0], [0, 1, 2], [0, 0, 0], [0, 1, 1, 0], [2, 1, 0], [0, 0, 1],
+                [1, 0, 0, 1], [0, 1, 0, 1], [0, 1], [0, 1, 1]]
+
+
+def same_type_terms(rng, make):
+    """Three diagrams of one type for the terms of a formal sum: `make(structure_rng, data_rng)` is
+    called with the same structural seed, so all have the same shape; [0] and [1] have independent
+    data, [2] is built from the seeds of [0] again (equal, not the same object)."""
+    import random
+    s, d0, d1 = rng.getrandbits(64), rng.getrandbits(64), rng.getrandbits(64)
+    return [make(random.Random(s), random.Random(d0)), make(random.Random(s), random.Random(d1)),
+            make(random.Random(s), random.Random(d0))]
+
+
+def build_sum(terms, how):
+    """The formal sum of the terms, built the way `how` says."""
+    if how == "plus":
+        out = terms[0]
+        for t in terms[1:]:
+            out = out + t
+        return out
+    if how == "sum_class":
+        return terms[0].sum(list(terms))
+    if how == "builtin_sum":
+        return sum(terms[1:], terms[0])
+    if how == "nested":                 # (a + b) + (c + ...): sums of sums flatten
+        k = max(1, len(terms) // 2)
+        left, right = build_sum(terms[:k], "plus"), build_sum(terms[k:], "plus")
+        return left + right
+    raise ValueError(how)
+
+
+SUM_BUILDERS = ["plus", "plus", "sum_class", "builtin_sum", "nested"]
 
 
 # --------------------------------------------------------------------------- generators
